@@ -35,15 +35,23 @@
        run-time error; no type is read at run time in this mode.  With it the statement aimed at
        (`safety_statement`: the three modes) holds of every parsed, accepted, closed program with
        Topo on the reachable configurations as the only premise.
-   NOT proved here: the premise Topo on reachable configurations (topo_runs / topo_reachable; proved
-   for the core fragment in the polarized modes by proofs/TopoReach.v, tested by proofs/TopoCheck.v
-   on every suite run). *)
+     * C01_safety_parsed : THE statement for the polarized modes — no schedule of a parsed, accepted,
+       closed program reaches a run-time error — with NO further premise: the forest invariant Topo
+       along the runs is proofs/DeterminismAll.v (topo_runs_all, for sources passing all_src_b: no
+       empty case, no droppable forward form) and all_src_b is a theorem for parsed accepted
+       programs (C01_all_src_parsed: proofs/SrcAll.v — choice types are non-empty and the checker
+       demands a branch per label; the parser never builds a droppable forward).
+     * C01_safety_all_modes_parsed : the same in ALL THREE execution modes (`safety_statement`): Topo along
+       the runs of the non-polarized mode is proofs/InvNP.v / DeterminismNP.v (another contributor).
+   Every statement above is closed under the global context; nothing is left as a premise for parsed,
+   accepted, closed programs. *)
 From stdpp Require Import gmap strings.
 Require Import Grits.Base Grits.ModeDefs Grits.Modes Grits.STypes Grits.Forms Grits.Subst Grits.TcDeps Grits.Expand
                Grits.Tc Grits.TcTop Grits.Runtime Grits.spec.RtTyping Grits.spec.Topo
                Grits.proofs.StepErrors Grits.proofs.RtSubst Grits.proofs.RtEffect Grits.proofs.RtSafety
                Grits.proofs.RtInit Grits.proofs.RtTheorems Grits.proofs.RtStaticCheck
-               Grits.spec.SynOk Grits.proofs.RtTcSyn Grits.proofs.RtTcBisim Grits.proofs.ParseRaw Grits.proofs.RtSafetyNP Grits.proofs.RtTheoremsTc.
+               Grits.spec.SynOk Grits.proofs.RtTcSyn Grits.proofs.RtTcBisim Grits.proofs.ParseRaw Grits.proofs.RtSafetyNP Grits.proofs.RtTheoremsTc
+               Grits.proofs.InitAccept Grits.proofs.DeterminismAll Grits.proofs.SrcAll Grits.proofs.RtTheoremsFinal.
 
 Theorem C01_step_error_inv : forall md D F c ch who e,
   step md D F c ch = SError who e <-> step_err md D F c ch who e.
@@ -186,6 +194,43 @@ Theorem C01_safety_all_modes_parsed_partial : forall txt p p' md,
     exec_run fuel pick md (p_types p') (p_funs p') (init_config p') <> RError c who e.
 Proof. exact safety_all_modes_parsed_partial. Qed.
 
+(* ------------------------------------------------------------------ no premise beyond parsed / accepted / closed (polarized modes) *)
+Theorem C01_accepted_nonempty_cases : forall p p',
+  typecheck p = Accept p' -> prog_syn_ok p = true -> nec_src_b p = true.
+Proof. exact accepted_nonempty_cases. Qed.
+
+Theorem C01_all_src_parsed : forall txt p p',
+  parse_string txt = POk p -> typecheck p = Accept p' -> all_src_b p = true.
+Proof. exact all_src_parsed. Qed.
+
+Theorem C01_topo_runs_parsed : forall txt p p',
+  parse_string txt = POk p -> typecheck p = Accept p' -> in_fragment p' ->
+  forall md c, is_np md = false -> reachable (p_types p') (p_funs p') md (init_config p') c -> Topo c.
+Proof. exact topo_runs_parsed. Qed.
+
+Theorem C01_safety_parsed : forall txt p p' md,
+  parse_string txt = POk p -> typecheck p = Accept p' -> in_fragment p' -> is_np md = false ->
+  forall fuel pick c who e,
+    exec_run fuel pick md (p_types p') (p_funs p') (init_config p') <> RError c who e.
+Proof. exact safety_parsed. Qed.
+
+Theorem C01_topo_runs_np_parsed : forall txt p p',
+  parse_string txt = POk p -> typecheck p = Accept p' -> in_fragment p' ->
+  forall c, reachable (p_types p') (p_funs p') NP (init_config p') c -> Topo c.
+Proof. exact topo_runs_np_parsed. Qed.
+
+Theorem C01_safety_all_modes_parsed : forall txt p p' md,
+  parse_string txt = POk p -> typecheck p = Accept p' -> in_fragment p' ->
+  forall fuel pick c who e,
+    exec_run fuel pick md (p_types p') (p_funs p') (init_config p') <> RError c who e.
+Proof. exact safety_all_modes_parsed. Qed.
+
+Theorem C01_reachable_typed_parsed : forall txt p p' md c,
+  parse_string txt = POk p -> typecheck p = Accept p' -> in_fragment p' -> is_np md = false ->
+  reachable (p_types p') (p_funs p') md (init_config p') c ->
+  exists Δ, init_delta p' ⊆ Δ /\ cfg_typed (p_types p') (p_funs p') (teq_rt (p_types p')) Δ c /\ Topo c.
+Proof. exact reachable_typed_parsed. Qed.
+
 (* the two computable premises as the check module evaluates them on every program of the suite *)
 Theorem C01_syn_premises_sound : forall txt, syn_premises_text txt = SY_ok ->
   exists p p', parse_string txt = POk p /\ typecheck p = Accept p' /\ in_fragment p' /\
@@ -246,6 +291,13 @@ Print Assumptions C01_no_error_np.
 Print Assumptions C01_topo_closed_unused_np.
 Print Assumptions C01_safety_np_parsed_partial.
 Print Assumptions C01_safety_all_modes_parsed_partial.
+Print Assumptions C01_accepted_nonempty_cases.
+Print Assumptions C01_all_src_parsed.
+Print Assumptions C01_topo_runs_parsed.
+Print Assumptions C01_safety_parsed.
+Print Assumptions C01_topo_runs_np_parsed.
+Print Assumptions C01_safety_all_modes_parsed.
+Print Assumptions C01_reachable_typed_parsed.
 Print Assumptions C01_syn_premises_sound.
 Print Assumptions C01_examples_syn_ok.
 Print Assumptions C01_static_check_examples.
